@@ -140,7 +140,7 @@ def table_worker(items, open_classes):
         if kind == "lit":
             lit = payload
             for obs, text in programs_for_literal(lit):
-                cls = obs_classes("lit", obs, lit)
+                cls = obs_classes("lit", obs, lit) & open_classes
                 p.ev()
                 res, detail = judge_text(c, resolver, subs, text)
                 p.count("literal:" + res)
@@ -153,7 +153,7 @@ def table_worker(items, open_classes):
         elif kind == "pair":
             a, b = payload
             for obs, text in programs_for_pair(a, b):
-                cls = obs_classes("pair", obs, (a, b))
+                cls = obs_classes("pair", obs, (a, b)) & open_classes
                 p.ev()
                 res, detail = judge_text(c, resolver, subs, text)
                 p.count("fold:" + res)
@@ -163,7 +163,7 @@ def table_worker(items, open_classes):
                     p.failure(f"C09 fold {tag} obs={obs} types={tname(a[2])},{tname(b[2])} {detail[0]}",
                               {"program": text, "state": STATE, "detail": detail[1]})
                 # metamorphic: unfolded variant with typed locals
-                if res == "ok" and not cls:
+                if res == "ok" and not cls:   # (cls = classes of findings that are still open)
                     un = text.replace(a[0], "la", 1).replace(b[0], "lb", 1)
                     un = "{ " + f"{tname(a[2])} la = {a[0]}; {tname(b[2])} lb = {b[0]}; " + un[1:]
                     r2, d2 = judge_text(c, resolver, subs, un)
@@ -219,7 +219,11 @@ def run_check(ctx):
             [("dead", t) for t in DEAD_ARM_TEMPLATES]
     ctx.extra["literal_spellings"] = len(lits)
     chunks = [items[i::48] for i in range(48)]
-    run.run_sharded(ctx, table_worker, [(c, set()) for c in chunks if c], procs=16)
+    open_classes = set()
+    for f in ctx.findings:
+        if f.get("status") == "open":
+            open_classes |= set(f.get("cell_classes", []))
+    run.run_sharded(ctx, table_worker, [(c, open_classes) for c in chunks if c], procs=16)
 
 
 def replay(rep):
